@@ -211,6 +211,19 @@ CHECKS = {
         "Runs are deterministic (fixed seeds) so the unaborted run enumerates the abort points; receivers after the aborting one miss that event.",
         "DESIGN.md §3 C15",
     ),
+    "C14": (
+        "fault_enumeration",
+        "exhaustive fault-sequence injection (call index x failing row subset x thresholds x persistence) with exact exit-code prediction; budget sweep with prefix oracle; evaluator-exception injection; Hypothesis for filters/transforms/evaluator steps",
+        "For slsqp (combined and split), nelder-mead, differential evolution and vectorized DE with R=P=2: every subset of the rows of every one of "
+        "the first 6 evaluator calls returns NaN (from that call on, or only there) under every realization_min_success and "
+        "perturbation_min_success; an independent model of the injected faults predicts which call must end the run, the exit code "
+        "(TOO_FEW_REALIZATIONS iff such a call exists), that nothing is requested afterwards and that the failing results are delivered. The same "
+        "fault sets run against all four filter kinds x both estimators x transforms with a consistency oracle on the delivered stream; every "
+        "max_functions from 1 to the unconstrained length must give a bit-identical prefix, respect the budget (+ less than one DE batch) and "
+        "report MAX_FUNCTIONS_REACHED iff stopped early; a ValueError and a custom exception raised by the evaluator at every call must reach the caller.",
+        "Exact prediction only for mean estimator without filters; with filters/stddev the code must be documented and consistent with the stream.",
+        "DESIGN.md §3 C14",
+    ),
 }
 
 NOT_YET = "check not built yet in this session (planned, see DESIGN.md §3)"
